@@ -30,6 +30,14 @@ CLAIMED = {
          "Deductive proof for all VAAs and address lists: the verdict is true exactly when every signature recovers over the VAA's digest to the address at its claimed index, indices are in range and strictly ascending and signers distinct; no panic on any signature bytes.",
          "Trusted: govc, SMT solvers; secp256k1 recovery and keccak are uninterpreted functions (so 'changing a body bit changes the verdict' is not claimed, only that the verdict is a function of the digest and the signature list).",
          "DESIGN.md §3-C06"),
+ "C08": ("iff-contract on isEventConfirmed/getConfirmationDuration; representation invariant of the pending table + at-assertions at the hand-off sites of handleEvents_ (closure `process` verified inline), handleConfirmedEvents, handleObsvRequest, handleGovernanceMessages; contracts on the page conversion, attestation check and re-observation lookup; symbolic clock; SMT",
+         "Deductive proof for every sequence of pages, heights, node answers and re-observation requests: a message is handed to the signing pipeline only if its event has index 0 and the token-bridge id as sender, it is final at that moment (block height + consistency level <= height, and - mainnet transfers - max(cl,205) block intervals of wall-clock time since the block timestamp), the node reported its block canonical in the same round, an attestation equals the token's own metadata; the re-observation path additionally filters by the emitting contract and applies the same time rule (both were missing: found, replayed, repaired). Per block iteration an event is either kept pending or leaves the table, never both.",
+         "Trusted: govc, SMT solvers. Environment: the node's answers are arbitrary values, except (listed) that events returned by GetContractEvents(address) were emitted by that address (polling path), headers are far from the int32/int64 limits, successful API calls return non-nil results; a reorg between two node calls is 'any answer'. time.Now on a ghost monotone clock.",
+         "DESIGN.md §3-C08"),
+ "C09": ("contracts on the page conversion (a malformed event never fails the page; a well-formed non-attestation event is always kept: per-iteration clause), termination variant + monotone cursor on the page loop of fetchEvents, no-panic obligations on GetTokenInfo; SMT",
+         "Deductive proof for every page content and every node answer: handleUnconfirmedEvents never returns an error because of a malformed or foreign event and keeps every well-formed transfer event of the page; the page loop of fetchEvents terminates (variant count - cursor) and the cursor only moves forward by what was fetched; GetTokenInfo reaches no nil dereference whatever the multicall returns. Four genuine defects were found by failing obligations, replayed on the real code and repaired (page dropped by one bad event; spin on a moved count; two nil dereferences).",
+         "Trusted: govc, SMT solvers; assumed contracts of the node API client (non-nil on success). 'Eventually observed' is claimed only as: each tick handles all events below the polled count and each height tick forwards every final one (C08) - that ticks keep arriving and that the node reports NextStart consistently are environment assumptions; the restart behaviour of the supervisor is out of scope.",
+         "DESIGN.md §3-C09"),
  "C11": ("functional contracts (accept-iff-fits + exact value) on the field decoders, ToWormholeMessage, toMessagePublication, parseAttestToken (offsets extracted from token_bridge.ral), hex/base58 helpers; inverse lemma; SMT",
          "Deductive proof for all event fields: an event is decoded iff its six fields fit the VAA format and then carries exactly those values, the block timestamp split as (ms div 1000, ms mod 1000) and chain id 255; out-of-range or negative values are rejected, never wrapped; attestation payload offsets equal the Ralph encoder's; no panic.",
          "Trusted: govc, SMT solvers; assumed contracts of math/big (SetString/Cmp/Sign/IsUint64/Uint64), encoding/hex, base58 (uninterpreted, Decode(Encode(b))=b), bytes.Trim (uninterpreted), time.Unix; Ralph source is a spec input (regex extraction, fails closed).",
